@@ -73,6 +73,20 @@ ASSUME PreimageRoundTrip
 ASSUME EncMpint(KOfX25519(<<0, 0, 5>>)) = <<0, 0, 0, 1, 5>> /\ EncMpint(KOfX25519(<<200, 1>>)) = <<0, 0, 0, 3, 0, 200, 1>>
 
 \* (a zero-arity constant definition: TLC evaluates it once at start-up, which prints the records)
+\* ---- K shapes: representatives of every shape (and a few more), their expected encodings per method
+KReps == { <<18, 52, 86, 120, 1>>, <<127, 255, 0, 0, 9>>,                                  \* ord
+           <<128, 0, 0, 0, 1>>, <<200, 1, 2, 3, 4>>, <<255, 255, 255, 255, 255>>,            \* hi
+           <<0, 34, 80, 114, 7>>, <<0, 127, 255, 3, 4>>, <<0, 1, 0, 0, 0>>,                  \* lz
+           <<0, 128, 1, 2, 3>>, <<0, 200, 1, 2, 3>>, <<0, 255, 255, 255, 255>>,              \* lzhi
+           <<0, 0, 5, 6, 7>>, <<0, 0, 200, 1, 2>>, <<0, 0, 0, 130, 1>>, <<0, 0, 0, 0, 1>> } \* lz2
+ASSUME {ShapeOf(r) : r \in KReps} = KShapes
+ASSUME \A m \in Methods, r \in KReps : KEncodingOK(m, r)
+\* every width-3 secret (except zero, which every method refuses) for one mpint method and the string method
+ASSUME \A a \in {0, 1, 127, 128, 255}, b \in {0, 1, 127, 128, 255}, c \in {0, 1, 128} :
+         (a + b + c > 0) => (KEncodingOK("c25519", <<a, b, c>>) /\ KEncodingOK("mlkem", <<a, b, c>>))
+EmitKShapes == \A m \in Methods, r \in KReps :
+   PrintT("TRACE " \o ToJson([kshape |-> ShapeOf(r), m |-> m, kenc |-> KEnc(m), raw |-> r, enc |-> EncK(m, r)]))
+
 EmitPreimages == \A m \in Methods, k \in 0..(NPre - 1) :
    PrintT("TRACE " \o ToJson([pre |-> m, spec |-> FieldSpec(m), vals |-> Valuation(m, k), bytes |-> Preimage(m, Valuation(m, k))]))
 
